@@ -98,8 +98,5 @@ func runReplay(path string) int {
 	return 2
 }
 
-func runSelftest(args []string) int {
-	infra("selftest not built yet")
-	return 2
-}
+func runSelftest(args []string) int { return runSelftestReal(args) }
 
